@@ -5,7 +5,8 @@
    GENERATED (Gen/Reader.v): loader.read_chunk_range itself (ld_read_chunk_range: the list of range reads and where each
    is placed in the output buffer).
    HAND-WRITTEN here: the statement skeleton that strings these together (checked by the generator against the source:
-   order of the checks, "the output file is opened after everything that can refuse", order of the writes), struct.pack's
+   order of the checks, "the output file is opened after everything that can refuse", order of the writes), which stored
+   array a header word stands for (HeaderwordInfo.get_header_dict, pinned), struct.pack's
    range checks, the length of the buffer allocated by read_chunk_range (pinned: loader SgzLoader3d.read_chunk_range), the
    meaning of a.reshape((R, C))[r0:r1, c0:c1].flatten(), utils.coord_to_index on an arithmetic axis (pinned), and how a
    reader parses the regenerated header (out_hdr / out_axes). *)
@@ -144,6 +145,22 @@ Definition footer_count (shape : Z * Z) (w : Z * Z * Z * Z) : Z :=
   | (R, C), (r0, r1, c0, c1) =>
     Z.max 0 (norm_bound r1 R - norm_bound r0 R) * Z.max 0 (norm_bound c1 C - norm_bound c0 C)
   end.
+
+(* ---------------- which stored arrays are written ---------------- *)
+(* T = [(k, hw_info.table[k][1]) for k in stored_header_keys], in table order (= the order of the reader's template).
+   HeaderwordInfo.get_header_dict (pinned) gives a NEW array slot, numbered in order of discovery, to a varying word that is
+   not a duplicate of an already discovered one (an OWNER: ref = k), and the slot of that word to a duplicate.
+   owner_rank T r acc = acc + number of owners before the entry of word r = the slot of word r's array. *)
+Definition is_owner (e : Z * Z) : bool := snd e =? fst e.
+Fixpoint owner_rank (T : list (Z * Z)) (r : Z) (acc : Z) : Z :=
+  match T with
+  | [] => acc
+  | e :: t => if fst e =? r then acc else owner_rank t r (if is_owner e then acc + 1 else acc)
+  end.
+(* the loop over stored_header_keys: for every key that is not skipped, the array variant_headers[k], i.e. the source's
+   stored array number owner_rank of its ref, is cropped and appended.  Result: source array numbers in write order. *)
+Definition footer_arrays (T : list (Z * Z)) : list Z :=
+  map (fun e => owner_rank T (snd e) 0) (filter (fun e => negb (crp_footer_skip (fst e) (snd e))) T).
 
 (* ---------------- by coordinates ---------------- *)
 (* utils.coord_to_index(coord, coords, include_stop) where coords[k] = start + k * step, 0 <= k < n:
